@@ -168,3 +168,44 @@ Section Memo.
 End Memo.
 Arguments mk_obj {C D}. Arguments coords {C D}. Arguments memo {C D}. Arguments new_obj {C D}.
 Arguments OHash {C S}. Arguments OEq {C S}. Arguments OAppend {C S}. Arguments OSlice {C S}. Arguments OCopy {C S}.
+
+(* ---------- vocabulary of the stateful methods regenerated from the source (Gen/GenC12.v: __hash__, append,
+   update_hash, hash_dict, hash_resampler_geometries, BaseResampler.get_hash).  A hashlib object is the list of
+   tokens fed to it so far; an optional one is `existing_hash=None`. *)
+Definition is_noneb {A} (o : option A) : bool := match o with None => true | Some _ => false end.
+Definition set_memo {C} (o : obj C Z) (m : option Z) : obj C Z := mk_obj (coords o) m.
+(* int(self.update_hash().hexdigest(), 16) *)
+Definition digest_int {C} (dig : C -> Z) (o : obj C Z) : option Z := Some (dig (coords o)).
+
+Definition o_ndim {T} (o : obj (swath T) Z) : Z := s_ndim (coords o).
+Definition o_lons {T} (o : obj (swath T) Z) : list (list T) := s_lon (coords o).
+Definition o_lats {T} (o : obj (swath T) Z) : list (list T) := s_lat (coords o).
+(* assigning a freshly concatenated (numpy) array *)
+Definition set_o_lons {T} (o : obj (swath T) Z) (l : list (list T)) : obj (swath T) Z :=
+  mk_obj (mk_swath 0 (s_ndim (coords o)) l (s_lat (coords o)) 0 0) (memo o).
+Definition set_o_lats {T} (o : obj (swath T) Z) (l : list (list T)) : obj (swath T) Z :=
+  mk_obj (mk_swath 0 (s_ndim (coords o)) (s_lon (coords o)) l 0 0) (memo o).
+(* shape and size are functions of the coordinate arrays in the model: the assignments store nothing new *)
+Definition rows_shape {T} (l : list (list T)) : Z * Z := (zlen l, match l with r :: _ => zlen r | nil => 0 end).
+Definition rows_size {T} (l : list (list T)) : Z := zlen (concat l).
+Definition set_o_shape {T} (o : obj (swath T) Z) (s : Z * Z) : obj (swath T) Z := o.
+Definition set_o_size {T} (o : obj (swath T) Z) (s : Z) : obj (swath T) Z := o.
+Definition np_concat {T} (p : list (list T) * list (list T)) : list (list T) := fst p ++ snd p.
+
+Definition hl (T : Type) := option (list (tok T)).
+Definition sha1_new {T} : hl T := Some nil.
+Definition hl_tokens {T} (h : hl T) : list (tok T) := match h with Some l => l | None => nil end.
+Definition hl_update {T} (h : hl T) (x : list (tok T)) : hl T := Some (hl_tokens h ++ x).
+Definition hexdigest {T} (h : hl T) : list (tok T) := hl_tokens h.            (* H is applied by the reader *)
+Definition upd_crs {T} (h : hl T) (a : harea T) : hl T := hl_update h [TCrs (h_crs a)].
+Definition upd_shape {T} (h : hl T) (a : harea T) : hl T := hl_update h [TInt (h_h a); TInt (h_w a)].
+Definition upd_ext {T} (OP : ops T) (h : hl T) (a : harea T) : hl T := hl_update h (map (fun x => TNum (canon OP x)) (ext_list (h_ext a))).
+Definition upd_json {T} (h : hl T) (kw : Z) : hl T := hl_update h [TJson kw].
+(* geometry.update_hash() / geometry.update_hash(h) for a geometry given by its byte image *)
+Definition geo_upd0 {T} (g : list (tok T)) : hl T := hl_update sha1_new g.
+Definition geo_upd {T} (g : list (tok T)) (h : hl T) : hl T := hl_update h g.
+(* BaseResampler: self.source_geo_def / self.target_geo_def, and the optional overriding arguments *)
+Record resampler (T : Type) := mk_resampler { r_src : option (list (tok T)); r_tgt : option (list (tok T)) }.
+Arguments mk_resampler {T}. Arguments r_src {T}. Arguments r_tgt {T}.
+Definition ogeo_upd0 {T} (g : option (list (tok T))) : hl T := match g with Some i => geo_upd0 i | None => None end.
+Definition ogeo_upd {T} (g : option (list (tok T))) (h : hl T) : hl T := match g with Some i => geo_upd i h | None => None end.
